@@ -51,7 +51,9 @@ CHECKS = {
             "for every forecaster program of the menu (incl. depth-2 compositions) the complete tree of "
             "call histories over {predict, update(size, update_params)} up to depth 3 after fit is "
             "executed on the real object; after every call the cutoff and the forecast index are "
-            "compared with cutoff+steps, and the whole history is re-run on a twin shifted by +7",
+            "compared with cutoff+steps, and the whole history is re-run on a twin shifted by +7; further modes: "
+            "alternating relative/absolute requests with equal numbers, re-passing remembered observations, two "
+            "composites built from the same member objects driven in lock-step",
             "4/C03", TRUST + "Integer/range indexes only."),
     "C08": ("exploration", "E1", E1,
             "every (base forecaster, grid form, grid/randomized search, splitter, series, scorer direction, "
@@ -69,7 +71,7 @@ CHECKS = {
             "per forecaster program a breadth-first search over {update, overlapping update, update_predict_single, "
             "update_predict} histories to depth 3-4 on the real object: cutoff, remembered data, repeated predict, "
             "equivalence with a fresh fit on the union, parameter digest across update_params=False, closed forms "
-            "from the new cutoff, update_predict vs the loop of single calls",
+            "from the new cutoff, update_predict vs the loop of single calls, predict after update_predict",
             "4/C10", TRUST + "Refit-equivalence only demanded of programs whose every part refits on update (listed in evidence assumptions)."),
     "C14": ("exploration", "E1", E1,
             "24 closed-form transformer kinds over tagged panels/series (equal and unequal length, Series/array cells) "
@@ -79,7 +81,8 @@ CHECKS = {
             "for every composite program (ensembles over all member subsets x aggregates, pipelines over all "
             "transformer sequences of length <=2, multiplexers, stacking, depth-2 nestings) x horizon x call "
             "history, the real composite is compared with the composition of independently built parts, "
-            "including everything the inner recording estimators receive in fit and in update",
+            "including everything the inner recording estimators receive in fit and in update; independence of two "
+            "composites built from the same member objects; members fitted as tasks of one parallel call",
             "4/C09", TRUST + "Where the hand composition itself raises, only 'composite raises too' is judged."),
     "C13": ("model_checking", "E2", E2 + "; every stretch offset after every update; +7 shift twin",
             "per transformer configuration x training length x update schedule: after fit and after each update "
@@ -104,7 +107,8 @@ CHECKS = {
     "C19": ("model_checking", "E2+E3", "explicit-state breadth-first search over benchmark run histories with exhaustive "
             "crash-point injection (k-th fit / k-th predict raises, deviation-bounded) on the real Orchestrator and result stores",
             "every run history (length <=3, crash budget <=2, thorough <=5/3) over all valid option assignments x every "
-            "crash point, each run on a new Orchestrator + new results object over the same path; states merged on a "
+            "crash point, each run on a new Orchestrator + new results object over the same path (plus two-run histories "
+            "on ONE Orchestrator object); states merged on a "
             "canonical digest of the store; exactly-once, record == independent refit, load == stored, resume "
             "equals uninterrupted run (records and registry), identical re-run does no fits, overwrite recomputes",
             "4/C19", TRUST + "Crash = exception raised by the k-th fit/predict of a counting estimator (no partial file writes)."),
@@ -116,17 +120,19 @@ CHECKS = {
             "read back from composite and component; every component replaced by name",
             "4/C04", TRUST + "Base arguments come from the repository's ESTIMATOR_TEST_PARAMS fixture."),
     "C20": ("fault_enumeration", "E3", E3 + " (one malformed aspect injected per call, every cell paired with its valid twin)",
-            "complete matrix of 2538 (entry point, fault class, context) cells: fit/update/predict of 14 forecaster "
+            "complete matrix of 7299 (entry point, fault class, context) cells: fit/update/predict of 14 forecaster "
             "programs, four splitters, evaluate, both searches, train/test split, make_reduction: the faulty call must "
             "raise ValueError/TypeError/NotImplementedError, produce no result and no fitted state, and the twin call "
-            "differing only in the offending aspect must succeed",
+            "differing only in the offending aspect must succeed; a rejected horizon leaves no trace for the next call",
             "4/C20", TRUST + "Contexts are enumerated (3 series x 2 horizons) instead of randomised."),
     "C12": ("model_checking", "E2+E4", E2 + " + " + E4,
             "apply-call histories (every sequence of <=3 apply-type calls after fit, incl. same-shape different-content "
             "inputs) for 24 series transformers, 20 panel transformers x 2 containers, 23 forecaster programs, 9 panel "
             "estimators x 2 containers with input snapshots around fit and every call; twins x random_state x n_jobs x "
             "pickle; every task order of every runnable Parallel call site under an owned joblib backend; every "
-            "<=1-preemption (thorough <=2) interleaving of two captured tasks on two real threads under a line-event baton",
+            "<=1-preemption (thorough <=2) interleaving of two captured tasks on two real threads under a line-event baton; "
+            "whole fit/predict calls with two tasks of one Parallel call interleaved at source-line and at bytecode "
+            "granularity; pickled copies answer every apply call like the original",
             "4/C12 + 3.5", TRUST + "C/third-party frames are atomic steps; process-based parallelism not explored."),
 }
 
@@ -167,7 +173,7 @@ def build():
         engines=[
             dict(name="E1", path="mc/core.py", kind_free_text=E1,
                  serves_properties=[p for p in props if p in CHECKS and CHECKS[p][1] == "E1"]),
-            dict(name="E2", path="mc/hist.py", kind_free_text=E2,
+            dict(name="E2", path="mc/checks/c10.py", kind_free_text=E2,
                  serves_properties=[p for p in props if p in CHECKS and "E2" in CHECKS[p][1]]),
             dict(name="E3", path="mc/checks/c19.py", kind_free_text=E3,
                  serves_properties=[p for p in props if p in CHECKS and "E3" in CHECKS[p][1]]),
